@@ -796,3 +796,79 @@ func c19BalloonCases(thorough bool) []c19Case {
 	}
 	return out
 }
+
+
+// ---------------------------------------------------------------------------
+// C16: pool tree on a machine family x available/reserved configurations
+
+func c16PoolCases(thorough bool) []*scenario {
+	var out []*scenario
+	coresL := []int{1, 2}
+	for _, p := range []int{1, 2, 4} {
+		for _, d := range []int{1, 2} {
+			for _, n := range []int{1, 2} {
+				for _, c := range coresL {
+					for _, t := range []int{1, 2} {
+						ncpu := p * d * n * c * t
+						nnodes := p * d * n
+						if ncpu < 2 || ncpu > 32 {
+							continue
+						}
+						variants := []func(s *sysgen.Spec) bool{
+							func(s *sysgen.Spec) bool { return true },
+							func(s *sysgen.Spec) bool { s.Isolated = []int{ncpu - 1}; return ncpu > 2 },
+							func(s *sysgen.Spec) bool { s.Offline = []int{ncpu - 1}; return ncpu > 2 },
+							func(s *sysgen.Spec) bool {
+								s.Extras = []sysgen.Extra{{MemKB: 16 << 20, CloseTo: []int{0}}}
+								return true
+							},
+							func(s *sysgen.Spec) bool {
+								if nnodes < 2 {
+									return false
+								}
+								s.Extras = []sysgen.Extra{{MemKB: 16 << 20, CloseTo: []int{0}}, {MemKB: 16 << 20, CloseTo: []int{nnodes - 1}}, {MemKB: 1 << 20, CloseTo: []int{0, 1}}}
+								return true
+							},
+							func(s *sysgen.Spec) bool {
+								if nnodes < 2 {
+									return false
+								}
+								s.NodeMemKB = map[int]int64{1: 0}
+								return true
+							},
+							func(s *sysgen.Spec) bool {
+								if nnodes < 2 {
+									return false
+								}
+								s.NodeMemKB = map[int]int64{nnodes - 1: 0}
+								s.Extras = []sysgen.Extra{{MemKB: 16 << 20, CloseTo: []int{nnodes - 1}}}
+								return true
+							},
+						}
+						for vi, vf := range variants {
+							m := &sysgen.Spec{Packages: p, Dies: d, NodesPerDie: n, CoresPerNode: c, Threads: t}
+							if !vf(m) {
+								continue
+							}
+							m.Name = fmt.Sprintf("p%dd%dn%dc%dt%d/v%d", p, d, n, c, t, vi)
+							cfgs := []cfgSpec{
+								taCfg("rsv750m"),
+								taCfg("rsv-cpuset0", taReserved("cpuset:0")),
+								taCfg(fmt.Sprintf("avail-0-%d", ncpu-2), taAvailable(fmt.Sprintf("cpuset:0-%d", ncpu-2)), taReserved("cpuset:0")),
+								taCfg(fmt.Sprintf("avail-1-%d", ncpu-1), taAvailable(fmt.Sprintf("cpuset:1-%d", ncpu-1)), taReserved("1500m")),
+							}
+							if thorough {
+								cfgs = append(cfgs, taCfg("avail-half", taAvailable(fmt.Sprintf("cpuset:0-%d", ncpu/2)), taReserved("cpuset:0")),
+									taCfg("rsv-last", taReserved(fmt.Sprintf("cpuset:%d", ncpu-2))))
+							}
+							for _, cfg := range cfgs {
+								out = append(out, &scenario{name: m.Name + "/" + cfg.label, policy: polTA, machine: m, cfgs: []cfgSpec{cfg}, maxInc: 1})
+							}
+						}
+					}
+				}
+			}
+		}
+	}
+	return out
+}
